@@ -5,6 +5,8 @@ pub mod indexing;
 pub mod pattern;
 pub mod predicate;
 pub mod root_candidates;
+#[cfg(feature = "verif")]
+pub mod verif;
 
 pub use constraint::PGConstraint;
 pub use pattern::PGPattern;
